@@ -99,6 +99,12 @@ def replay(ctx, mode, behaviours):
     rows = vlib.read_ndjson(trace)
     if stats["events"] != len(rows):
         raise vlib.Infra("trace truncated")
+    if stats.get("hung"):
+        # a hang is infrastructure, but what was recorded before it is still judged by the monitor
+        ctx.log("driver watchdog fired after %d behaviours: %s" % (stats["behaviours"], stats["hung"]))
+        last_new = max(i for i, r in enumerate(rows) if r["op"] == "New")
+        if stats["behaviours"] == 0:
+            raise vlib.Infra("driver hung in the first behaviour: " + stats["hung"])
     return rows, stats, trace
 
 
@@ -139,9 +145,9 @@ def run_stack(ctx, pid):
     deaf = sum(1 for r in rows if r["op"] == "Deliver" and r["h"] == "none")
     cov = {
         "states": ctx.states()[0], "transitions": ctx.states()[1],
-        "traces_validated_against_impl": len(behaviours),
+        "traces_validated_against_impl": stats["behaviours"],
         "samples": [ops_of(behaviours[0]), ops_of(behaviours[len(exh) // 2]), ops_of(behaviours[-1])],
-        "evaluations": len(behaviours), "distinct_nontrivial": len(distinct),
+        "evaluations": stats["behaviours"], "distinct_nontrivial": len(distinct),
         "rule": "every step history of length D over {Deliver, Become(b), BecomeStacked(b), UnBecomeStacked, UnBecome} allowed by "
                 "BehaviorStack.tla (TLC BFS) plus TLC random walks, each executed on a fresh real actor and followed by an epilogue that "
                 "pops the whole stack one UnBecomeStacked per message; non-trivial = contains a switch call followed by a later Deliver; "
@@ -188,6 +194,8 @@ def run_stack(ctx, pid):
         rp = ctx.save_replay("seed%d" % ctx.seed, snippet, text="\n".join(map(str, mism[:200])))
         ctx.evidence("model_checking", cov, assumptions, violations=len(mism))
         raise vlib.Violation(pid, rp, msg)
+    if stats.get("hung"):
+        raise vlib.Infra("driver watchdog: %s (no monitor mismatch in the part recorded before)" % stats["hung"])
     if drift:
         ctx.log("conformance drift (not a verdict): " + drift)
     ctx.evidence("model_checking", cov, assumptions)
@@ -266,6 +274,8 @@ def run_stash(ctx, pid):
         ctx.evidence("model_checking", cov, assumptions, violations=len(mism))
         raise vlib.Violation(pid, rp, "monitor: %s: the stash contract says %s, the real actor showed %s (trace line %d = step %d of the "
                              "saved behaviour; %d mismatches in %d behaviours)" % (kind, exp, got, line, idx + 1, len(mism), stats["behaviours"]))
+    if stats.get("hung"):
+        raise vlib.Infra("driver watchdog: %s (no monitor mismatch in the part recorded before)" % stats["hung"])
     if drift:
         ctx.log("conformance drift (not a verdict): " + drift)
     ctx.evidence("model_checking", cov, assumptions)
